@@ -42,6 +42,7 @@ type HarnessSpec struct {
 	What         string   `json:"what"`
 	AllowPanics  bool     `json:"allow_panics"`
 	Synctest     bool     `json:"synctest"`
+	PanicFreedom bool     `json:"panic_freedom"` // the obligation is "no path panics"; explicit assertions are optional
 }
 
 type CheckSpec struct {
@@ -319,7 +320,7 @@ func main() {
 		if !rep.Exhausted && len(rep.Problems) == 0 {
 			inconclusive = append(inconclusive, h.Fn+": exploration not exhausted")
 		}
-		if rep.Asserts == 0 {
+		if rep.Asserts == 0 && !h.PanicFreedom {
 			inconclusive = append(inconclusive, h.Fn+": vacuous (no assertion reached)")
 		}
 		for _, l := range h.RequireReach {
